@@ -1,15 +1,15 @@
 package main
 
 import (
-	"net/http"
-	"net/http/httptest"
-	"time"
-	"github.com/bbva/qed/api/mgmthttp"
 	"bytes"
 	"fmt"
+	"github.com/bbva/qed/api/mgmthttp"
+	"net/http"
+	"net/http/httptest"
 	"os"
 	"sort"
 	"strings"
+	"time"
 
 	"github.com/bbva/qed/balloon"
 	qcmd "github.com/bbva/qed/cmd"
